@@ -19,8 +19,8 @@ static inline u64 negmod(u64 x) { return x == 0 ? 0 : GP - x; }
 /* field multiplication of canonical values: uninterpreted, commutative by construction.
  * Range axiom (result canonical) is instantiated where a contract that mentions MUL is *assumed*. */
 u64 __CPROVER_uninterpreted_mulmod(u64, u64);
-static inline u64 MUL(u64 x, u64 y)
-{ u64 a = canon(x), b = canon(y); return a <= b ? __CPROVER_uninterpreted_mulmod(a, b) : __CPROVER_uninterpreted_mulmod(b, a); }
+static inline u64 MUL(u64 x, u64 y) /* no call to another spec function inside (dfcc restriction) */
+{ u64 a = x >= GP ? x - GP : x, b = y >= GP ? y - GP : y; return a <= b ? __CPROVER_uninterpreted_mulmod(a, b) : __CPROVER_uninterpreted_mulmod(b, a); }
 
 /* reduction target of a 128-bit value hi:lo :  T = lo + hi_lo*(2^32-1) - hi_hi   (signed 128-bit, shifts only) */
 static inline s128 redT(u64 hi, u64 lo)
